@@ -193,11 +193,62 @@ Definition record_inspection (rc : trec) (clean : bool) : trec :=
 (* ---------------------------------------------------------------------- *)
 (* immune memory                                                            *)
 
-Record msig := mkSig { m_agent : Z; m_vh : Z; m_sh : Z; m_level : level; m_action : action }.
+(* a stored ThreatSignature; times are seconds on the (virtual) clock *)
+Record msig := mkSig {
+  m_agent : Z; m_vh : Z; m_sh : Z; m_level : level; m_action : action;
+  m_created : Z;       (* created_at *)
+  m_accessed : Z       (* last_accessed *) }.
 
 Definition sig_matches (p : peptide) (m : msig) : bool :=
   (m_agent m =? 0) && (m_vh m =? p_vh p) && (m_sh m =? p_sh p).
 Definition recall (mem : list msig) (p : peptide) : option msig := find (sig_matches p) mem.
+
+Definition restamp (m : msig) (created accessed : Z) : msig :=
+  mkSig (m_agent m) (m_vh m) (m_sh m) (m_level m) (m_action m) created accessed.
+
+(* ThreatSignature.touch on the first signature satisfying f (recall) *)
+Fixpoint touch_first (f : msig -> bool) (now : Z) (mem : list msig) : list msig :=
+  match mem with
+  | [] => []
+  | m :: r => if f m then restamp m (m_created m) now :: r else m :: touch_first f now r
+  end.
+
+Fixpoint remove_first (f : msig -> bool) (mem : list msig) : list msig :=
+  match mem with
+  | [] => []
+  | m :: r => if f m then r else m :: remove_first f r
+  end.
+
+(* ImmuneMemory._prune_least_accessed: drop the first signature with the smallest last_accessed *)
+Definition prune_least (mem : list msig) : list msig :=
+  match mem with
+  | [] => []
+  | m :: r =>
+      let mn := fold_left Z.min (map m_accessed r) (m_accessed m) in
+      remove_first (fun x => m_accessed x =? mn) mem
+  end.
+
+(* ImmuneMemory.store: prune one signature if at capacity, then append (stamped now) *)
+Definition mem_store (cap now : Z) (mem : list msig) (m : msig) : list msig :=
+  (if cap <=? Z.of_nat (length mem) then prune_least mem else mem) ++ [restamp m now now].
+
+(* ImmuneMemory.prune_old(max_age): keep created_at > now - max_age *)
+Definition mem_prune_old (now age : Z) (mem : list msig) : list msig :=
+  filter (fun m => now - age <? m_created m) mem.
+
+(* from_dict leaves last_accessed at its default, the WALL clock, which is later than
+   every virtual time: imported signatures are the most recently accessed, in import order *)
+Definition imported_base : Z := 1000000000000.
+
+(* ImmuneMemory.import_signatures: append while below capacity; created_at comes from the data *)
+Fixpoint mem_import (cap : Z) (imp : Z) (mem : list msig) (items : list msig) : list msig * Z :=
+  match items with
+  | [] => (mem, imp)
+  | m :: r =>
+      if Z.of_nat (length mem) <? cap
+      then mem_import cap (imp + 1) (mem ++ [restamp m (m_created m) (imported_base + imp)]) r
+      else mem_import cap imp mem r
+  end.
 
 Fixpoint remove_nth {A : Type} (i : nat) (l : list A) : list A :=
   match l, i with
@@ -241,17 +292,30 @@ Record cfg := mkCfg {
   g_rules : list rule; g_stab : Z;     (* Treg rules, stability_threshold *)
   g_n : Z;                             (* ImmuneSystem.min_training_samples *)
   g_tmin : Z;                          (* Thymus.min_training_samples *)
-  g_tol : Q; g_vt : Q                  (* Thymus.tolerance, variance_threshold *) }.
+  g_tol : Q; g_vt : Q;                 (* Thymus.tolerance, variance_threshold *)
+  g_cap : Z                            (* ImmuneMemory.capacity *) }.
 
-Record sys := mkSys { s_tcell : option tcell; s_mem : list msig; s_rec : option trec }.
+Record sys := mkSys {
+  s_tcell : option tcell; s_mem : list msig; s_rec : option trec;
+  s_clock : Z;         (* the clock memory.py reads (seconds) *)
+  s_imp : Z            (* how many signatures have been imported so far *) }.
+
+Definition set_tcell (s : sys) (t : option tcell) : sys := mkSys t (s_mem s) (s_rec s) (s_clock s) (s_imp s).
+Definition set_mem (s : sys) (mem : list msig) : sys := mkSys (s_tcell s) mem (s_rec s) (s_clock s) (s_imp s).
+Definition set_rec (s : sys) (r : option trec) : sys := mkSys (s_tcell s) (s_mem s) r (s_clock s) (s_imp s).
 
 Inductive op :=
 | OInspect (p : option peptide)    (* inspect; None = display has too few observations *)
 | OFlag (truthy : bool)            (* flag_agent(reason); truthy = reason is non-empty *)
 | OReset                           (* tcell.reset() *)
 | OResetNC                         (* tcell.reset_without_confirmation() *)
-| OStore (m : msig)                (* memory.store(signature) from outside *)
-| OForget (i : nat)                (* a signature disappears (pruning) *)
+| OStore (m : msig)                (* memory.store(signature) from outside (stamped now) *)
+| OForget (i : nat)                (* del memory.signatures[i] *)
+| OClearMem                        (* memory.signatures.clear() *)
+| OImport (items : list msig)      (* memory.import_signatures(data) *)
+| OPruneOld (age : Z)              (* memory.prune_old(timedelta(seconds=age)) *)
+| OAdvance (dt : Z)                (* the clock moves on *)
+| OTouch (agent vh sh : Z)         (* memory.recall(query): touches the first exact match *)
 | OSetClean (k : Z)                (* record.clean_inspections := k *)
 | OTrain (p : option peptide)      (* train_agent on the window whose fingerprint is p *)
 | OTregEval (l : level) (a : action).  (* treg.evaluate on a hand-made response *)
@@ -278,7 +342,8 @@ Definition sys_inspect (legacy : bool) (g : cfg) (s : sys) (po : option peptide)
     | Some p =>
       let consult := legacy || (negb (is_anergic t) && nonempty (check (t_prof t) p)) in
       match (if consult then recall (s_mem s) p else None) with
-      | Some m => (s, OutResp (mkResp (m_level m) (m_action m) S1NonSelf S2Cross [9] false) None)
+      | Some m => (set_mem s (touch_first (sig_matches p) (s_clock s) (s_mem s)),
+                   OutResp (mkResp (m_level m) (m_action m) S1NonSelf S2Cross [9] false) None)
       | None =>
         let '(t', r) := tcell_inspect t p in
         let '(r', sp, rec') :=
@@ -290,9 +355,10 @@ Definition sys_inspect (legacy : bool) (g : cfg) (s : sys) (po : option peptide)
               (r', Some sp, Some (record_inspection rc (level_eqb (r_level r') LNone)))
           end in
         let mem' := if stores (r_level r')
-                    then s_mem s ++ [mkSig 0 (p_vh p) (p_sh p) (r_level r') (r_action r')]
+                    then mem_store (g_cap g) (s_clock s) (s_mem s)
+                                   (mkSig 0 (p_vh p) (p_sh p) (r_level r') (r_action r') 0 0)
                     else s_mem s in
-        (mkSys (Some t') mem' rec', OutResp r' sp)
+        (mkSys (Some t') mem' rec' (s_clock s) (s_imp s), OutResp r' sp)
       end
     end
   end.
@@ -305,12 +371,11 @@ Definition sys_train (rnd : Q -> Q) (g : cfg) (s : sys) (po : option peptide) : 
     if Z.max (g_n g) 0 <? g_tmin g then (s, OutTrain Insufficient)
     else if g_n g <=? 0 then (s, OutTrain TrainRaises)
     else if (1 <? g_n g) && qlt 0%Q (p_ol p) && qlt (g_vt g) 0%Q then (s, OutTrain Anergic)
-    else (mkSys (Some (fresh_tcell (train_profile rnd (g_tol g) p) 3 5)) (s_mem s) (s_rec s),
-          OutTrain Positive)
+    else (set_tcell s (Some (fresh_tcell (train_profile rnd (g_tol g) p) 3 5)), OutTrain Positive)
   end.
 
 Definition on_tcell (s : sys) (f : tcell -> tcell) : sys :=
-  mkSys (option_map f (s_tcell s)) (s_mem s) (s_rec s).
+  set_tcell s (option_map f (s_tcell s)).
 
 Definition sys_step (rnd : Q -> Q) (legacy : bool) (g : cfg) (s : sys) (o : op) : sys * outcome :=
   match o with
@@ -318,11 +383,18 @@ Definition sys_step (rnd : Q -> Q) (legacy : bool) (g : cfg) (s : sys) (o : op) 
   | OFlag b => (on_tcell s (fun t => tcell_flag t b), OutUnit)
   | OReset => (on_tcell s tcell_reset, OutUnit)
   | OResetNC => (on_tcell s tcell_reset_nc, OutUnit)
-  | OStore m => (mkSys (s_tcell s) (s_mem s ++ [m]) (s_rec s), OutUnit)
-  | OForget i => (mkSys (s_tcell s) (remove_nth i (s_mem s)) (s_rec s), OutUnit)
-  | OSetClean k =>
-      (mkSys (s_tcell s) (s_mem s)
-             (option_map (fun rc => mkRec k (rc_total rc)) (s_rec s)), OutUnit)
+  | OStore m => (set_mem s (mem_store (g_cap g) (s_clock s) (s_mem s) m), OutUnit)
+  | OForget i => (set_mem s (remove_nth i (s_mem s)), OutUnit)
+  | OClearMem => (set_mem s [], OutUnit)
+  | OImport items =>
+      let '(mem', imp') := mem_import (g_cap g) (s_imp s) (s_mem s) items in
+      (mkSys (s_tcell s) mem' (s_rec s) (s_clock s) imp', OutUnit)
+  | OPruneOld age => (set_mem s (mem_prune_old (s_clock s) age (s_mem s)), OutUnit)
+  | OAdvance dt => (mkSys (s_tcell s) (s_mem s) (s_rec s) (s_clock s + dt) (s_imp s), OutUnit)
+  | OTouch ag vh sh =>
+      (set_mem s (touch_first (fun m => (m_agent m =? ag) && (m_vh m =? vh) && (m_sh m =? sh))
+                              (s_clock s) (s_mem s)), OutUnit)
+  | OSetClean k => (set_rec s (option_map (fun rc => mkRec k (rc_total rc)) (s_rec s)), OutUnit)
   | OTrain po => sys_train rnd g s po
   | OTregEval l a =>
       (s, OutSupp (option_map
@@ -497,18 +569,18 @@ Record case := mkCase {
   c_rules : list (level * ccond); c_stab : Z;
   c_tcell : option (profile * Z * Z);   (* installed watcher: profile, repeat thr, anergy thr *)
   c_record : bool;                      (* Treg has a tolerance record for the agent *)
-  c_n : Z; c_tmin : Z; c_tol : Q; c_vt : Q;
+  c_n : Z; c_tmin : Z; c_tol : Q; c_vt : Q; c_cap : Z;
   c_win : nat * nat;                    (* window_size, min_observations *)
   c_table : fp_table;                   (* reference fingerprints of the windows that get inspected *)
   c_ops : list aop }.
 
 Definition cfg_of (c : case) : cfg :=
   mkCfg (map (fun x => mkRule (fst x) (interp_cond (snd x))) (c_rules c)) (c_stab c)
-        (c_n c) (c_tmin c) (c_tol c) (c_vt c).
+        (c_n c) (c_tmin c) (c_tol c) (c_vt c) (c_cap c).
 
 Definition init_of (c : case) : sys :=
   mkSys (option_map (fun x => let '(pr, rep, an) := x in fresh_tcell pr rep an) (c_tcell c))
-        [] (if c_record c then Some (mkRec 0 0) else None).
+        [] (if c_record c then Some (mkRec 0 0) else None) 0 0.
 
 Definition disp_of (c : case) : display := mkDisp (fst (c_win c)) (snd (c_win c)) [] [].
 
@@ -533,7 +605,8 @@ Definition outcome_obs (o : outcome) : list Z :=
   end.
 
 Definition msig_obs (m : msig) : list Z :=
-  [m_agent m; m_vh m; m_sh m; level_code (m_level m); action_code (m_action m)].
+  [m_agent m; m_vh m; m_sh m; level_code (m_level m); action_code (m_action m); m_created m;
+   if m_accessed m <? imported_base then m_accessed m else -1].
 
 Definition state_obs (s : sys) : list Z :=
   match s_tcell s with
@@ -542,12 +615,13 @@ Definition state_obs (s : sys) : list Z :=
                b2z (is_anergic t)]
   end ++
   match s_rec s with None => [-1; -1] | Some rc => [rc_clean rc; rc_total rc] end ++
-  Z.of_nat (length (s_mem s)) :: flat_map msig_obs (s_mem s).
+  s_clock s :: Z.of_nat (length (s_mem s)) :: flat_map msig_obs (s_mem s).
 
 Definition op_code (o : op) : Z :=
   match o with
   | OInspect _ => 1 | OFlag _ => 2 | OReset => 3 | OResetNC => 4 | OStore _ => 5
   | OForget _ => 6 | OSetClean _ => 7 | OTrain _ => 8 | OTregEval _ _ => 9
+  | OClearMem => 10 | OImport _ => 11 | OPruneOld _ => 12 | OAdvance _ => 13 | OTouch _ _ _ => 14
   end.
 
 Definition q_obs (q : Q) : list Z := let r := Qred q in [Qnum r; Zpos (Qden r)].
